@@ -295,7 +295,10 @@ def rule_apply(chk):
         it2 = EM.interpreter()
         nn2 = EM.mock(spatially_order_particles=lambda i, args, k, n, e: slog.append(('order', args[0])), update=lambda i, args, k, n, e: slog.append(('update',)),
                       update_domain=lambda i, args, k, n, e: slog.append(('update_domain',)))
-        parr = [EM.mock(name='p%d' % k_, align_particles=lambda i, a, k, n, e, k_=k_: slog.append(('align', k_))) for k_ in range(3)]
+        # three arrays; the last one holds a single particle (an inlet that is nearly empty): whether or not it is re-ordered itself, the others are and the neighbours are rebuilt
+        COUNTS = (5, 7, 1)
+        parr = [EM.mock(name='p%d' % k_, align_particles=lambda i, a, k, n, e, k_=k_: slog.append(('align', k_)),
+                        get_number_of_particles=lambda i, a, k, n, e, k_=k_: COUNTS[k_], num_real_particles=COUNTS[k_]) for k_ in range(3)]
         # serial and parallel set-ups alike (pm = None / a parallel manager)
         pm_log = []
         for pm_ in (None, EM.mock(update=lambda i, a, k, n, e: pm_log.append('pm.update'), update_remote_particle_properties=lambda i, a, k, n, e: None)):
@@ -307,9 +310,10 @@ def rule_apply(chk):
             if not any(l[0] == 'update' and i > lo_ for i, l in enumerate(seg)):
                 slog.append(('missing-update', 'pm is None' if pm_ is None else 'with a parallel manager'))
         slog_first = slog
-        orders = [l[1] for l in slog if l[0] == 'order'][:3]
-        chk.decide(sorted(orders) == [0, 1, 2], 'reorder-all-arrays-then-update', 'all-arrays', node=rp, file=SOL, func='Solver.reorder_particles',
-                   detail_bad='with three arrays the solver re-orders %s' % orders, detail_ok='every array once')
+        first_run = slog[:([i for i, l in enumerate(slog) if l[0] == 'update'] or [len(slog)])[0]]
+        orders = [l[1] for l in first_run if l[0] == 'order']
+        chk.decide(sorted(orders) in ([0, 1, 2], [0, 1]), 'reorder-all-arrays-then-update', 'all-arrays', node=rp, file=SOL, func='Solver.reorder_particles',
+                   detail_bad='with three arrays (5, 7 and 1 particles) the solver re-orders %s' % orders, detail_ok='every array (with more than one particle) once')
         chk.decide(not [l for l in slog if l[0] == 'missing-update'], 'reorder-all-arrays-then-update', 'update-after', node=rp, file=SOL, func='Solver.reorder_particles',
                    detail_bad='the neighbour structures are not rebuilt after the particles were permuted (stale indices): %s' % slog, detail_ok='nnps.update() after the last re-ordering')
         # the index lists are read from the binning structures: those must describe the arrays as they are - update_domain() (wrap, ghosts removed and re-created) changes
@@ -367,6 +371,7 @@ def main(chk):
     c01 = importlib.util.module_from_spec(spec01)
     spec01.loader.exec_module(c01)
     c01.rule_refresh_unconditional(chk)
+    c01.rule_sorted_on_every_refill(chk)
     chk.assume('that head/next, pid and key tables hold each particle exactly once is not decided (see C01)')
 
 
